@@ -4,6 +4,7 @@ from typing import Any, Optional
 
 import numpy
 import numpy.typing
+import numpoly
 
 from ..baseclass import PolyLike
 from ..dispatch import implements, simple_dispatch
@@ -63,9 +64,11 @@ def isfinite(
         array([False,  True, False])
 
     """
-    out_ = simple_dispatch(
-        numpy_func=numpy.isfinite, inputs=(x,), where=where, **kwargs
-    )
+    # terms that are non-finite everywhere become all-False: keep them
+    with numpoly.global_options(retain_coefficients=True):
+        out_ = simple_dispatch(
+            numpy_func=numpy.isfinite, inputs=(x,), where=where, **kwargs
+        )
     if out is None:
         out_ = numpy.all(numpy.asarray(out_.coefficients), axis=0)
     else:
